@@ -83,7 +83,7 @@ def check(run, replay):
     except Exception as e:  # translator must fail loudly
         run.violation("translate:platforms", "platform translator failed: %s" % e, {"broken": "translator", "detail": str(e)}, found_input=False)
         plats = []
-    ok = run.prove(extra_targets=["theories/Lit/Run.vo"])
+    ok = run.prove(extra_targets=["theories/Lit/Run.vo", "theories/TypeConv/Run.vo"])
     model = vlib.build_model(PID) if ok or os.path.exists(os.path.join(vlib.COQ, "theories/Lit/Run.vo")) else None
     if not ok:
         run.violation("proof:" + PID, "Properties_C10.vo does not build: " + str(run.proof_error())[:300],
@@ -211,6 +211,14 @@ def x2_end_to_end(run, model, plats, lits):
     wd = tempfile.mkdtemp(prefix="c10x2_")
     try:
         sizeof_oracle(run, plats, wd)
+        try:
+            spec_model = vlib.build_model("C09")        # the extracted ISO C conversion rules (TypeConv/Spec.v)
+        except vlib.BuildError as e:
+            spec_model = None
+            run.violation("build:C09-spec", "the C09 specification binary does not build: %s" % str(e)[:200], {"broken": "build"}, found_input=False)
+        for pname in names:
+            if spec_model and pname in byname:
+                mixed_operands(run, spec_model, wd, byname[pname], rng, quick)
         for pname in names:
             p = byname.get(pname)
             if p is None:
@@ -315,6 +323,141 @@ def x2_end_to_end(run, model, plats, lits):
                                               dict(where, expected=spec, oracle="clang -target armv7-linux-gnueabihf / gcc -funsigned-char: _Static_assert('\\xff' == 255)"))
     finally:
         shutil.rmtree(wd, ignore_errors=True)
+
+
+# C type index as in tools/props/c09.py / TypeConv/Run.v
+MIX_TYPES = [(1, "signed char", "sizeof_char", True), (2, "unsigned char", "sizeof_char", False), (4, "short", "sizeof_short", True),
+             (5, "unsigned short", "sizeof_short", False), (6, "int", "sizeof_int", True), (7, "unsigned int", "sizeof_int", False),
+             (8, "long", "sizeof_long", True), (9, "unsigned long", "sizeof_long", False), (10, "long long", "sizeof_long_long", True),
+             (11, "unsigned long long", "sizeof_long_long", False)]
+MIX_OPS = ["<", ">", "<=", ">=", "==", "!=", "+", "-", "*", "/", "%"]
+
+
+def code_rule_takes_left_sign(p, info, ia, ib_):
+    """the branch `else if (n1 > n2 || type1 != type2) sign = sign1` of truncateImplicitConversion with n1 == n2"""
+    enum = {1: 0, 2: 0, 4: 1, 5: 1, 6: 2, 7: 2, 8: 3, 9: 3, 10: 4, 11: 4}
+
+    def code_view(i):
+        n, sg, ty = info[i][1] // 8, info[i][2], enum[i]
+        if n < p["sizeof_int"]:
+            return p["sizeof_int"], True, 2
+        return n, sg, ty
+    (n1, s1, t1), (n2, s2, t2) = code_view(ia), code_view(ib_)
+    return (n1 == n2 and t1 != t2 and s1 != s2), s1
+
+
+def conv(v, bits, signed):
+    v %= 2 ** bits
+    return v - 2 ** bits if signed and v >= 2 ** (bits - 1) else v
+
+
+def mixed_operands(run, spec_model, wd, p, rng, quick):
+    """`(TA)(x) OP (TB)(y)` for every pair of integer types, comparisons and arithmetic, negative operands
+    included, through `cppcheck --dump --platform=P`; the Known value is judged by C semantics for the
+    platform: operands converted to their cast types, integer promotions and usual arithmetic conversions
+    from the extracted specification TypeConv/Spec.v (`spec` tag of the C09 model binary), arithmetic in the
+    common type (unsigned: modulo 2^N; signed overflow, division by zero: skipped as undefined)."""
+    pname = p["name"]
+    bits = lambda f: 8 * (1 if f == "sizeof_char" else p[f])
+    info = {i: (name, bits(f), sg) for i, name, f, sg in MIX_TYPES}
+    vals = [0, 1, 2, 3, 127, 128, 255, 256, 32767, -1, -2, -128, -129, -32767]
+    cases = []
+    for ia, na, fa, sa in MIX_TYPES:
+        for ib_, nb, fb, sb in MIX_TYPES:
+            for op in MIX_OPS:
+                pairs = [(rng.choice(vals), -1), (rng.choice(vals), rng.choice(vals))]
+                if quick and op in ("+", "-", "*", "/", "%"):
+                    pairs = pairs[1:] if rng.random() < 0.5 else pairs[:1]
+                if not quick:
+                    pairs += [(-1, rng.choice(vals)), (rng.choice(vals), rng.choice(vals))]
+                for x, y in pairs:
+                    cases.append((ia, ib_, op, x, y))
+    # the common type of every pair from the Coq specification
+    pairs = sorted({(c[0], c[1]) for c in cases})
+    rc, so, se = vlib.run_lines([spec_model], [vlib.enc_case([b"spec", b"0", pname.encode(), b"0", str(a).encode(), str(b).encode()]) for a, b in pairs])
+    common = {}
+    for (a, b), line in zip(pairs, so):
+        f = vlib.dec_line(line)
+        common[(a, b)] = int(f[0]) if f and f[0].isdigit() else None
+    path = os.path.join(wd, "m_%s.c" % pname.replace("-", "_"))
+    with open(path, "w") as f:
+        for i, (ia, ib_, op, x, y) in enumerate(cases):
+            f.write("long long f%d(void) { return (%s)(%d) %s (%s)(%d) ; }\n" % (i, info[ia][0], x, op, info[ib_][0], y))
+    rc, out = G.run_cppcheck(vlib.CPPCHECK, path, platform=pname)
+    try:
+        toks, vs = G.parse_dump(path + ".dump")[0]
+    except Exception as e:
+        run.violation("x2:dump:mixed:" + pname, "no dump for %s: %s" % (pname, e), {"broken": "dump", "platform": pname}, found_input=False)
+        return
+    byid = {t["id"]: t for t in toks}
+    got = {}
+    for t in toks:
+        if t["str"] == "return" and t.get("astOperand1"):
+            got[int(t["linenr"]) - 1] = G.known_int(byid[t["astOperand1"]], vs)
+    for i, (ia, ib_, op, x, y) in enumerate(cases):
+        text = "(%s)(%d) %s (%s)(%d)" % (info[ia][0], x, op, info[ib_][0], y)
+        T = common.get((ia, ib_))
+        if T is None or T not in info:
+            continue
+        a1, b1 = conv(x, info[ia][1], info[ia][2]), conv(y, info[ib_][1], info[ib_][2])
+        tb, ts = info[T][1], info[T][2]
+        a2, b2 = conv(a1, tb, ts), conv(b1, tb, ts)
+        want = None
+        if op in ("<", ">", "<=", ">=", "==", "!="):
+            want = int({"<": a2 < b2, ">": a2 > b2, "<=": a2 <= b2, ">=": a2 >= b2, "==": a2 == b2, "!=": a2 != b2}[op])
+        elif op in "/%" and b2 == 0:
+            want = None
+        else:
+            if op == "/":
+                q = abs(a2) // abs(b2)
+                r = q if (a2 < 0) == (b2 < 0) else -q
+            elif op == "%":
+                q = abs(a2) // abs(b2)
+                r = a2 - (q if (a2 < 0) == (b2 < 0) else -q) * b2
+            else:
+                r = {"+": a2 + b2, "-": a2 - b2, "*": a2 * b2}[op]
+            if ts:
+                want = r if -2 ** (tb - 1) <= r < 2 ** (tb - 1) else None     # signed overflow: undefined
+            else:
+                want = r % 2 ** tb
+        impl = got.get(i)
+        kind = "cmp" if op in ("<", ">", "<=", ">=", "==", "!=") else "arith"
+        if want is None or impl is None:
+            run.count("x2:mixed", None, bucket="%s,%s,%s" % (pname, kind, "undefined" if want is None else "no-known-value"))
+            continue
+        # values of 64-bit unsigned expressions >= 2^63 are reported in two's complement (bigint)
+        same = impl == want or (not ts and tb == 64 and kind == "arith" and impl == conv(want, 64, True))
+        run.count("x2:mixed", None, nontrivial=(pname, text), bucket="%s,%s,%s" % (pname, kind, "ok" if same else "diff"))
+        if same:
+            continue
+        where = {"platform": pname, "expression": text, "cppcheck_known_value": impl, "expected": want,
+                 "common_type": info[T][0], "operands_after_conversion": [a2, b2],
+                 "how": "echo 'long long f(void){ return %s ; }' > t.c && %s --dump -q --platform=%s t.c  # Known value of the returned expression" % (text, vlib.CPPCHECK, pname)}
+        # promoted operand types (index, bits, signed) by the platform's representability rule
+        def promoted(i):
+            if i >= 6:
+                return i, info[i][1], info[i][2]
+            ibits = 8 * p["sizeof_int"]
+            fits_int = info[i][1] < ibits or (info[i][2] and info[i][1] <= ibits)
+            return (6, ibits, True) if fits_int else (7, ibits, False)
+        pa, pb = promoted(ia), promoted(ib_)
+        if not ts and tb == 64 and (a2 >= 2 ** 63 or b2 >= 2 ** 63 or want >= 2 ** 63):
+            key = "u64-above-int64"
+        elif op == "*" and not ts:
+            key = "unsigned-same-sign-fold"
+        elif op in "/%" and (y <= 0 or b2 <= 0 or b1 <= 0):
+            key = "div-mod-nonpositive-divisor"
+        elif code_rule_takes_left_sign(p, info, ia, ib_)[0] and (code_rule_takes_left_sign(p, info, ia, ib_)[1] or kind == "arith"):
+            # truncateImplicitConversion: operands of equal size (after its by-size promotion) but different
+            # enumerator type and different signs get the LEFT operand's sign; wrong whenever that is the signed
+            # one, and for arithmetic also with an unsigned left operand (the expression is typed signed, C09)
+            key = "mixed-equal-size-different-rank"
+        elif kind == "arith" and ((ia < 6 and pa[0] == 7) or (ib_ < 6 and pb[0] == 7)):
+            # an unsigned operand below int as wide as int: the expression is typed signed int (C09) and not reduced
+            key = "unsigned-promotion-equal-width-arith"
+        else:
+            key = "x2:mixed:%s:%s" % (pname, text)
+        run.violation(key, "%s on %s: cppcheck reports Known %d, the value is %d (common type %s)" % (text, pname, impl, want, info[T][0]), where)
 
 
 def nchars(body):
